@@ -25,7 +25,7 @@ CHECKS = {
          "margin >= 0.5 mm from borders; position tolerance 1e-4 mm; G92 re-basing is known finding D16 (dedicated scenario)"),
  "C09": (E2, "6/C09, 11-13", "all command sequences up to length 2 (3 thorough) over a ~700-command grammar x region sets x {outside, inside an episode, region drawn around the nozzle} x both entry points; no exception, protocol-conformant result shape",
          "arc radii capped at 1000"),
- "C10": (E1, "6/C10, 11-13", "every state reachable within the depth bound (moves, retractions, deferred codes, modes, @-commands, API and settings changes, aborted prints) is followed by print-started on a copy and compared behaviourally with a freshly initialised plugin: all probe programs up to length 2 (3 thorough; one deeper if the states differ) must give identical hook outputs",
+ "C10": (E1, "6/C10, 11-13", "every state reachable within the depth bound (moves, retractions, deferred codes, modes, home offset and G92 X/Y re-basing, @-commands, API and settings changes, aborted prints) is followed by print-started on a copy and compared behaviourally with a freshly initialised plugin: all probe programs up to length 2 (3 thorough; one deeper if the states differ) must give identical hook outputs",
          "probes start with G28; 12 probe commands + the afterPrintDone hook"),
  "C11": (E1, "6/C11, 11-13", "all interleavings of lifecycle events, settings updates, the three hooks and an API add, to fix-point, against a lifecycle model; inactive hooks must not alter or track; while active, decisions follow the current region list",
          "interleaving of whole hook/event calls"),
@@ -35,7 +35,7 @@ CHECKS = {
          "uuid4 replaced by a per-world counter"),
  "C14": (E1, "6/C14, 11-13", "all histories with enable/disable/unmatched/streaming @-commands at arbitrary points under default, custom, empty-matching and case-sensitive patterns, with arcs, consecutive prints and relative moves; reference flag from the configured patterns; C01/C03 obligations after re-enabling",
          "sent commands are re-fed through the queuing hook as MachineCom does; disable inside an episode in G91 is known finding D17"),
- "C15": (E1, "6/C15, 11-13", "all programs ending inside/outside an episode x all script-hook invocation sequences (near-miss names, other types) x end events, partial homing, region deleted mid-episode, to fix-point; the contribution is decoded as OctoPrint does, executed on printer A and compared with B",
+ "C15": (E1, "6/C15, 11-13", "all programs ending inside/outside an episode x all script-hook invocation sequences (near-miss names, other types) x end events (all five job-ending events and pause/resume around an open episode), partial homing, region deleted mid-episode, to fix-point; the contribution is decoded as OctoPrint does, executed on printer A and compared with B",
          "prefix lines interpreted as OctoPrint would send them"),
  "C16": (E2, "6/C16, 11-13", "complete grid of I/J arcs (slicer-style offsets; start x radius x start angle x sweep x direction) and R-form chords through planArc/computeArcCenterOffsets, incl. segment count vs arc length, plus end-to-end runs through the hook (12- and 3-decimal coordinates, omitted zero words) against probe regions",
          "absolute mm; R-form centre defect D2 is a known finding attributed by exact signature"),
